@@ -51,10 +51,16 @@ type Contract struct {
 	Alias      [][2]string
 	NonNil     []string
 	Trusted    string // non-empty: the contract is not verified by govc (reason / discharging engine); used at call sites only
+	AssertAfter []AfterClause // ghost assertions evaluated right after a call statement whose source text matches
 	CallReqs   map[string][]Clause // callback parameter name -> ghost preconditions asserted at each call through it
 	Info       *types.Info
 	Line       int
 	Opts       map[string]string
+}
+
+type AfterClause struct {
+	Match string // compacted source text of the call expression
+	Cl    Clause
 }
 
 type ExternAssume struct {
@@ -63,7 +69,7 @@ type ExternAssume struct {
 	Info *types.Info
 }
 
-var kwRe = regexp.MustCompile(`^(func|props|variant|ghost|requires|ensures|invariant|decreases|assigns|safe|summary|alias|nonnil|extern|opt|lemma|assume|callreq|trusted|uninterpreted)\b`)
+var kwRe = regexp.MustCompile(`^(func|props|variant|ghost|requires|ensures|invariant|decreases|assigns|safe|summary|alias|nonnil|extern|opt|lemma|assume|callreq|trusted|uninterpreted|assertafter)\b`)
 var tagRe = regexp.MustCompile(`^\[([A-Za-z0-9, ]+)\]\s*`)
 var nameRe = regexp.MustCompile(`^([a-zA-Z_][a-zA-Z0-9_\-]*):\s+`)
 
@@ -207,6 +213,20 @@ func (e *Engine) loadContracts(file *ast.File) error {
 					cur.CallReqs = map[string][]Clause{}
 				}
 				cur.CallReqs[p[0]] = append(cur.CallReqs[p[0]], Clause{Name: name, Props: props, Src: rest, Line: d.line})
+			case "assertafter":
+				// assertafter "<call text>" [props] name: expr
+				q1 := strings.Index(d.rest, "\"")
+				q2 := strings.Index(d.rest[q1+1:], "\"")
+				if q1 != 0 || q2 < 0 {
+					return fmt.Errorf("line %d: assertafter \"call text\" expr", d.line)
+				}
+				match := compact(d.rest[1 : 1+q2])
+				props, name, rest := splitTagName(strings.TrimSpace(d.rest[q2+2:]))
+				counts[d.kw]++
+				if name == "" {
+					name = strconv.Itoa(counts[d.kw])
+				}
+				cur.AssertAfter = append(cur.AssertAfter, AfterClause{Match: match, Cl: Clause{Name: name, Props: props, Src: rest, Line: d.line}})
 			case "invariant", "decreases":
 				p := strings.SplitN(d.rest, " ", 2)
 				if len(p) != 2 {
